@@ -6,7 +6,7 @@ import (
 	"verifh/hx"
 )
 
-var meths = []string{"MEcho", "MFail", "MBoom", "MNever", "MNote", "MNoMethod", "MNoGroup", "MBadPayload", "MUnenc", "MEncPanic", "MEchoLater", "MUnencLater", "MEncPanicLater"}
+var meths = []string{"MEcho", "MFail", "MBoom", "MNever", "MNote", "MNoMethod", "MNoGroup", "MBadPayload", "MUnenc", "MEncPanic", "MEchoLater", "MUnencLater", "MEncPanicLater", "MZero"}
 
 func rt(ty int64, m any) hx.T { return hx.C("RT", ty, m) }
 
@@ -74,6 +74,43 @@ func fixedCases(tier string) [][]hx.T {
 		hx.C("OReq", 1, 6, rt(0, "MEchoLater"), 2), hx.C("OReq", 1, 7, rt(2, "MEcho"), 3), hx.C("OHandshake", 1), hx.C("OHeartbeat", 1),
 		hx.C("OReq", 2, 5, rt(2, "MNever"), 4), hx.C("OHandshake", 2), hx.C("OAck", 1), hx.C("OReq", 1, 8, rt(2, "MUnencLater"), 5), hx.C("OAdvance"),
 		hx.C("OClose", 2), hx.C("OHandshake", 1), hx.C("OReq", 1, 9, rt(0, "MEcho"), 6)})
+	// route spellings that are not registered as written (Go method name, upper case, capitalised
+	// group) for every method shape, as request and as notification, front-local and forwarded,
+	// under both serializers
+	for _, pr := range []bool{false, true} {
+		for _, ty := range []int64{0, 2} {
+			ops := []hx.T{hx.C("OConnect", 1, false, 1)}
+			if pr {
+				ops = append([]hx.T{hx.C("OProto")}, ops...)
+			}
+			tag := int64(1)
+			for base := int64(0); base < 8; base++ {
+				for k := int64(0); k < 3; k++ {
+					ops = append(ops, hx.C("OReq", 1, 100+tag, rt(ty, hx.C("MMisspelt", base, k)), tag))
+					tag++
+					if k == 1 {
+						ops = append(ops, hx.C("ONotify", 1, rt(ty, hx.C("MMisspelt", base, k)), tag))
+						tag++
+					}
+				}
+			}
+			out = append(out, ops)
+		}
+	}
+	// protobuf client serializer: every behaviour incl. the all-default result (no payload bytes),
+	// front-local, keyed and default-routed back-ends
+	for _, ty := range []int64{0, 1, 2, 7} {
+		ops := []hx.T{hx.C("OProto"), hx.C("OConnect", 1, false, 1), hx.C("OReq", 1, 900, rt(0, hx.C("MSetKey", 2)), 1)}
+		tag := int64(2)
+		for i, m := range meths {
+			ops = append(ops, hx.C("OReq", 1, int64(10+i), rt(ty, m), tag))
+			tag++
+			ops = append(ops, hx.C("ONotify", 1, rt(ty, m), tag))
+			tag++
+		}
+		out = append(out, ops)
+	}
+	out = append(out, []hx.T{hx.C("OConnect", 1, false, 1), hx.C("OReq", 1, 5, rt(0, "MZero"), 1), hx.C("OReq", 1, 6, rt(2, "MZero"), 2), hx.C("ONotify", 1, rt(2, "MZero"), 3)})
 	// largest id
 	out = append(out, []hx.T{hx.C("OConnect", 1, false, 1), hx.C("OReq", 1, int64(4294967295), rt(2, "MEcho"), 1), hx.C("OReq", 1, int64(4294967295), rt(0, "MFail"), 2)})
 	if tier == "thorough" {
@@ -94,6 +131,10 @@ func gen(cfg *hx.Config, i int) ([]hx.T, []string) {
 		n = 20 + r.Intn(40)
 	}
 	var ops []hx.T
+	if r.Intn(4) == 0 {
+		ops = append(ops, hx.C("OProto"))
+		tags["serializer-proto"] = true
+	}
 	connected := map[int64]bool{}
 	tag := int64(1)
 	mid := func() int64 {
@@ -122,6 +163,10 @@ func gen(cfg *hx.Config, i int) ([]hx.T, []string) {
 		case p < 52:
 			tags["default-route"] = true
 			return rt(2, hx.Pick(r, meths))
+		}
+		if r.Intn(12) == 0 {
+			tags["misspelt-route"] = true
+			return rt(hx.Pick(r, []int64{0, 0, 1, 2}), hx.C("MMisspelt", int64(r.Intn(8)), int64(r.Intn(3))))
 		}
 		tags["keyed-route"] = true
 		if r.Intn(2) == 0 {
